@@ -149,6 +149,45 @@ def block_api_error_programs(run, tier):
     return progs
 
 
+def block_api_elif_guard(run, tier):
+    """Closed event sequences of Branching.tla that contain an _elif: replayed through the block API with a probe inside the
+    condition function; BranchConf!Inv_ElifGuard compares the guard active at that moment with the conjunction of the enclosing
+    conditions (the previous arm's region has ended by then)."""
+    import os
+    from concurrent.futures import ThreadPoolExecutor
+    from harness import tlc
+    with common.scratch("bre_") as d:
+        cf = os.path.join(d, "gen.cfg")
+        open(cf, "w").write("SPECIFICATION Spec\nCONSTANT MaxLen = %d\nCONSTANT MaxDepth = 2\nINVARIANT EmitBeh\nCHECK_DEADLOCK FALSE\n" % (5 if tier == "quick" else 6))
+        res = tlc.run("Branching", cfg=cf, workers=8, heap="6g")
+    run.add_tlc(res, "Branching.tla: closed event sequences with an _elif")
+    behs = [json.loads(json.loads(r)) for r in sorted(set(res.tagged("BEH")))]
+    behs = [b for b in behs if any(h["a"] == "elif" for h in b["hist"]) and not b["err"]]
+    step = max(1, len(behs) // (3000 if tier == "quick" else 20000))
+    behs = behs[::step]
+    progs = [{"id": "elifg/%d" % i, "ign": False, "steps": [{"op": "cfevents", "events": b["hist"], "tag": "main"}], "meta": {}} for i, b in enumerate(behs)]
+    cfg = {"P": 4099, "bitlength": 5, "resolution": 1}
+    traces = common.run_programs(cfg, progs)
+    pairs = []
+    for b, t in zip(behs, traces):
+        e = [x for x in t["events"] if x["op"] == "cfevents"][-1]
+        pairs.append({"id": t["id"], "model": b, "impl": {"raised": e["out"] != "ok", "exc": e["exc"], "final": {"x": 0, "y": 0, "z": 0}, "probes": e.get("probes", [])}})
+    run.evaluations += len(pairs)
+    run.traces += len(pairs)
+    run.notes.append("%d block-API sequences with _elif: guard probed inside the condition function" % len(pairs))
+    chunks = [pairs[i:i + 1500] for i in range(0, len(pairs), 1500)]
+    with ThreadPoolExecutor(6) as ex:
+        results = list(ex.map(lambda ch: common._tlc_on_chunk("BranchConf", "BranchConfGuard.cfg", {"pairs": ch}, 2, False, False, "3g"), chunks))
+    for ch, r in zip(chunks, results):
+        run.add_tlc(r, "guard inside _elif conditions")
+        if r.violated:
+            pr = ch[int(r.state["tid"]) - 1]
+            run.violation({"stage": "elif-guard", "invariant": r.violated, "tlc_state": r.state, "cfg": cfg, "pair": pr,
+                           "program": next(p for p in progs if p["id"] == pr["id"]),
+                           "summary": "%s for block-API sequence %s: guard seen by the _elif conditions %s, enclosing conjunctions %s" % (
+                               r.violated, json.dumps([h["a"] + str(h["c"]) for h in pr["model"]["hist"]]), pr["impl"]["probes"], [h["g"] for h in pr["model"]["hist"] if h["a"] == "elif"])})
+
+
 def view(tr):
     evs = []
     for e in tr["events"]:
@@ -219,6 +258,8 @@ def main(tier):
     run.samples = [{"history": hists[i], "program": progs[i]["steps"]} for i in (0, len(hists) // 2)]
     run.exhaustive = True
     common.validate_traces(run, "TraceGuard", traces, cfg="TraceGuard.cfg", label="conformance", programs=progs, view=view, chunk=1500, parallel=8)
+    if not run.violations:
+        block_api_elif_guard(run, tier)
     if not run.violations:
         r2 = common.Run("C08", tier)
         res = common.validate_traces(r2, "TraceGuard", traces, cfg="TraceGuardDrift.cfg", label="drift", programs=progs, view=view, chunk=1500, parallel=8)
